@@ -288,8 +288,21 @@ def judge_run(cfg, seed, fn=None):
     return out, n_items
 
 
-def judge_cli(spec, stages=False):
-    """the `nuspacesim run` command: the file it writes must hold, bit for bit, the table compute() produced"""
+CLI_OVERRIDES = [
+    (["77"], {"simulation": {"thrown_events": 77}}),
+    (["--monospectrum", "9.25"], {"simulation": {"spectrum": {"id": "monospectrum", "log_nu_energy": 9.25}}}),
+    (["--powerspectrum", "1.5", "7", "10.5"], {"simulation": {"spectrum": {"id": "powerspectrum", "index": 1.5, "lower_bound": 7.0, "upper_bound": 10.5}}}),
+    (["--monocloud", "2.5"], {"simulation": {"cloud_model": {"id": "monocloud", "altitude": 2.5}}}),
+    (["--pressuremapcloud", "3"], {"simulation": {"cloud_model": {"id": "pressure_map", "month": 3, "version": 0}}}),
+    (["--nocloud"], {"simulation": {"cloud_model": {"id": "no_cloud"}}}),
+    (["55", "--monospectrum", "10", "--pressuremapcloud", "Nov"], {"simulation": {"thrown_events": 55, "spectrum": {"id": "monospectrum", "log_nu_energy": 10.0}, "cloud_model": {"id": "pressure_map", "month": 11, "version": 0}}}),
+    (["1e2", "--powerspectrum", "1", "6", "12"], {"simulation": {"thrown_events": 100, "spectrum": {"id": "powerspectrum", "index": 1.0, "lower_bound": 6.0, "upper_bound": 12.0}}}),
+]
+
+
+def judge_cli(spec, stages=False, override=None):
+    """the `nuspacesim run` command: the file it writes must hold, bit for bit, the table compute() produced; with
+    command-line overrides (event count, spectrum, cloud model) the header describes the configuration AS OVERRIDDEN"""
     import dask
     from astropy.table import Table
     from click.testing import CliRunner
@@ -321,7 +334,7 @@ def judge_cli(spec, stages=False):
             warnings.simplefilter("ignore")
             with own.frozen_clock(), own.null_progress(), dask.config.set(scheduler="synchronous"):
                 np.random.seed(5)
-                res = CliRunner().invoke(R.run, [toml, "-o", fn] + (["-w"] if stages else []))
+                res = CliRunner().invoke(R.run, [toml] + (CLI_OVERRIDES[override][0] if override is not None else []) + ["-o", fn] + (["-w"] if stages else []))
         if res.exit_code != 0 or "t" not in cap:
             return [("cli_run_completes", "exit 0", f"exit {res.exit_code}: {str(res.exception)[:120]}")], 1
         if not os.path.exists(fn):
@@ -330,6 +343,29 @@ def judge_cli(spec, stages=False):
             warnings.simplefilter("ignore")
             r = Table.read(fn, format="fits")
         t = cap["t"]
+        if override is not None:
+            import copy
+
+            from nuspacesim.config import NssConfig
+            from nuspacesim.utils.misc import flatten_dict
+
+            d = copy.deepcopy(cfg.model_dump())
+            for sec, vals in CLI_OVERRIDES[override][1].items():
+                for k2, v2 in vals.items():
+                    d[sec][k2] = v2
+            want = flatten_dict(NssConfig(**d).model_dump(), "Config", sep=" ")
+            have = norm_meta(t.meta)
+            for k2, v2 in want.items():
+                n_items += 1
+                w = have.get(k2)
+                ok = (isinstance(w, (int, float, np.floating)) and float(w) == float(card_value(float(v2)))) if isinstance(v2, float) else (w == v2)
+                if not ok:
+                    out.append(("cli_override_in_header", f"{k2}={v2!r} for options {CLI_OVERRIDES[override][0]}", repr(w)))
+            extra_keys = [k2 for k2 in have if k2.startswith("Config ") and k2 not in want]
+            if extra_keys:
+                out.append(("cli_override_in_header", f"only the overridden configuration's keys for options {CLI_OVERRIDES[override][0]}", extra_keys[:4]))
+            if len(t) == 0 and want.get("Config simulation thrown_events", 1) > 20:
+                out.append(("cli_run_completes", "some surviving trajectories", "empty table"))
         if list(r.colnames) != list(t.colnames):
             out.append(("cli_columns_present", list(t.colnames), list(r.colnames)))
         from astropy.time import Time as _T
@@ -403,6 +439,12 @@ def run(ctx):
             ctx.tick(max(n, 1), ("cli", spec["mode"], stages))
             for c, e, o in v:
                 ctx.violation(c, {"spec": spec, "item": str(e)[:80], "cli": True, "stages": stages}, e, o)
+    spec = dict(mode="Diffuse", spectrum="mono", cloud="mono", optical=True, radio=True, n=60, tag="cli")
+    for oi in range(len(CLI_OVERRIDES)):
+        v, n = judge_cli(spec, False, override=oi)
+        ctx.tick(max(n, 1), ("cli_override", oi))
+        for c, e, o in v:
+            ctx.violation(c, {"spec": spec, "item": str(e)[:80], "cli": True, "stages": False, "override": oi}, e, o)
 
 
 def replay(case):
@@ -410,6 +452,6 @@ def replay(case):
         v, _ = judge_history(tuple(case["history"]))
         item = case.get("item")
         return [(c, e, o) for c, e, o in v if item is None or str(e)[:80] == item]
-    v, _ = judge_cli(case["spec"], case.get("stages", False)) if case.get("cli") else judge(case["spec"])
+    v, _ = judge_cli(case["spec"], case.get("stages", False), override=case.get("override")) if case.get("cli") else judge(case["spec"])
     item = case.get("item")
     return [(c, e, o) for c, e, o in v if item is None or str(e)[:80] == item]
